@@ -83,21 +83,43 @@ def instrument(spec, scratch):
            "-sim", os.path.join(VERIF, "sim")]
     if spec.get("fsnames"):
         cmd += ["-fsnames", ",".join(spec["fsnames"])]
+    if spec.get("fnentry_pkgs"):
+        cmd += ["-fnentry-pkgs", ",".join(spec["fnentry_pkgs"])]
     p = subprocess.run(cmd, env=ENV, stdout=subprocess.PIPE, stderr=subprocess.STDOUT, text=True)
     if p.returncode != 0:
         print(p.stdout[-4000:])
         infra("instrumentation of %s failed" % REPO)
-    return os.path.join(out, "overlay.json"), json.load(open(os.path.join(out, "report.json")))
+    report = json.load(open(os.path.join(out, "report.json")))
+    # instrumented dependencies: Go refuses overlays below GOMODCACHE, so copy the module, patch the copy, and
+    # point a replace directive at it (written into the scratch modfile by build_harness)
+    ext = report.get("ext_files") or {}
+    replaces = {}
+    for orig, rewritten in ext.items():
+        d = os.path.dirname(orig)
+        while d != "/" and not os.path.exists(os.path.join(d, "go.mod")):
+            d = os.path.dirname(d)
+        if d not in replaces:
+            modline = [l for l in open(os.path.join(d, "go.mod")) if l.startswith("module ")][0].split()[1]
+            dst = os.path.join(scratch, "ext", modline.replace("/", "_"))
+            shutil.copytree(d, dst)
+            subprocess.run(["chmod", "-R", "u+w", dst])
+            replaces[d] = (modline, dst)
+        modline, dst = replaces[d]
+        shutil.copy(rewritten, os.path.join(dst, os.path.relpath(orig, d)))
+    report["_replaces"] = {m: dst for (m, dst) in replaces.values()}
+    return os.path.join(out, "overlay.json"), report
 
 
-def build_harness(spec, scratch, overlay, race=False, name="h.test"):
+def build_harness(spec, scratch, overlay, race=False, name="h.test", replaces=None):
     hdir = os.path.join(VERIF, "harness")
-    modfile = os.path.join(scratch, "go.mod")
+    modfile = os.path.join(scratch, "go.mod" if not race else "go.race.mod")
     if not os.path.exists(modfile):
         mod = open(os.path.join(hdir, "go.mod")).read()
         mod = mod.replace("=> /repo", "=> " + REPO)
+        for m, dst in (replaces or {}).items():
+            mod += "\nreplace %s => %s\n" % (m, dst)
         open(modfile, "w").write(mod)
-        shutil.copy(os.path.join(hdir, "go.sum"), os.path.join(scratch, "go.sum"))
+        shutil.copy(os.path.join(hdir, "go.sum"), os.path.join(scratch, "go.sum" if not race else "go.race.sum"))
     binp = os.path.join(scratch, name)
     cmd = [GO, "test", "-c", "-vet=off", "-modfile=" + modfile, "-o", binp]
     if overlay:
@@ -273,7 +295,7 @@ def check_sched(pid, spec, args):
     workers = args.workers or spec.get("workers", {}).get(tier, NCPU)
     with Scratch() as scratch:
         overlay, report = instrument(spec, scratch)
-        binp = build_harness(spec, scratch, overlay)
+        binp = build_harness(spec, scratch, overlay, replaces=report.get("_replaces"))
         tb = time.time() - t0
         regress = run_regressions(pid, binp, scratch)
         procs = spawn_workers(binp, spec, scratch, seed, budget, workers)
@@ -441,8 +463,8 @@ def cmd_replay(args):
     pid = f["property"]
     spec = CHECKS[pid]
     with Scratch() as scratch:
-        overlay, _ = instrument(spec, scratch)
-        binp = build_harness(spec, scratch, overlay)
+        overlay, rep_ = instrument(spec, scratch)
+        binp = build_harness(spec, scratch, overlay, replaces=rep_.get("_replaces"))
         r = replay_once(binp, scratch, os.path.abspath(args.file), "x", extra_env={"VERIF_TRACE": "1"})
         print(json.dumps(r, indent=1)[:20000])
         if r.get("reproduced"):
